@@ -56,3 +56,48 @@ func (v *VerifDataPlane) VerifBFDSendOHP(ifID uint16, remoteIA addr.IA,
 	}
 	return link.Sent[before].Raw, nil
 }
+
+// VerifBFDSender is one real bfdSend (as newExternalInterfaceBFD creates it) that is kept for
+// a series of Send calls, the way a BFD session uses its sender. It must be the only user of
+// its dataplane (the dataplane's packet pool is replaced by a one-buffer pool).
+type VerifBFDSender struct {
+	v    *VerifDataPlane
+	b    *bfdSend
+	link *VerifLink
+}
+
+// VerifNewBFDSender builds the sender of the inter-AS link on interface ifID towards remoteIA.
+func (v *VerifDataPlane) VerifNewBFDSender(ifID uint16, remoteIA addr.IA,
+	localHost, remoteHost addr.Host) (*VerifBFDSender, error) {
+
+	d := v.dp
+	link, ok := d.interfaces[ifID].(*VerifLink)
+	if !ok || link == nil {
+		return nil, fmt.Errorf("interface %d has no fake link", ifID)
+	}
+	d.packetPool = makePacketPool(1, d.packetPool.headroom)
+	info := control.LinkInfo{
+		Local:  control.LinkEnd{IA: d.localIA},
+		Remote: control.LinkEnd{IA: remoteIA},
+	}
+	b, err := newBFDSend(d, info, localHost, remoteHost, ifID, false, d.macFactory())
+	if err != nil {
+		return nil, err
+	}
+	return &VerifBFDSender{v: v, b: b, link: link}, nil
+}
+
+// Send calls bfdSend.Send(msg) once and returns the bytes that reached the link.
+func (s *VerifBFDSender) Send(msg *layers.BFD) ([]byte, error) {
+	s.v.dp.packetPool.pool <- (&Packet{}).init(&[bufSize]byte{})
+	before := len(s.link.Sent)
+	if err := s.b.Send(msg); err != nil {
+		return nil, err
+	}
+	if len(s.link.Sent) != before+1 {
+		return nil, fmt.Errorf("bfdSend.Send handed %d packets to the link", len(s.link.Sent)-before)
+	}
+	raw := s.link.Sent[before].Raw
+	s.link.Sent = s.link.Sent[:0]
+	return raw, nil
+}
